@@ -46,6 +46,7 @@ def run(ctx):
                                    % (want, c["T"], bool(o.get("smear")), st["err"], st.get("msg")), c)
         if st["err"] not in (None, "ValueError"):
             ctx.impl_violation("unexpected-" + st["err"], "add_signal raised %s: %s" % (st["err"], st.get("msg")), c)
+    S.check_spec(ctx, cases, impl, fmins)
     S.evaluate(ctx, cases, impl, fmins)
     fcases = [dict(seed=rng.randint(0, 10 ** 6)) for _ in range(20 if quick else 400)]
     for c, r in zip(fcases, C.run_impl("c01_fam_impl", dict(cases=fcases))):
